@@ -116,8 +116,8 @@ theorem releaseSelf_tsub {s s' : State} {k : Nat} {K : List Nat}
     simp only [hk] at h
     cases hct : st.claimedTwice with
     | true =>
-      simp only [hct, if_true, Option.some.injEq] at h
-      subst h; exact TSub.of_eq rfl
+      simp only [hct, if_true] at h
+      exact TSub.of_eq (handback_frame h).1
     | false =>
       simp only [hct, Bool.false_eq_true, if_false] at h
       exact (TSub.of_eq (s := s) (s' := { s with sync := upd s.sync k none }) rfl).trans (release_tsub h)
